@@ -410,6 +410,36 @@ def v_metric_zeros(p):
     p.verify(f'{c.name}.zero', eng, body)
 
 
+def v_metric_identity(p):
+  """evaluate_batch / evaluate_model are jitted with the Metric as a STATIC argument: the trace cache is keyed by the
+  metric's == / hash, so every constructor field must take part in them (no compare=False / hash=False / eq=False)."""
+  import ast
+  from ..extract import parse
+  _, tree = parse(M)
+  bad, n_cls = [], 0
+  for cls in [n for n in tree.body if isinstance(n, ast.ClassDef)]:
+    decs = [ast.unparse(d) for d in cls.decorator_list]
+    if not any('dataclass' in d for d in decs):
+      continue
+    n_cls += 1
+    for d in cls.decorator_list:
+      if isinstance(d, ast.Call):
+        for k in d.keywords:
+          if k.arg in ('eq', 'unsafe_hash') and isinstance(k.value, ast.Constant) and k.value.value is False:
+            bad.append(f'{cls.name}: @dataclass({k.arg}=False)')
+    for st in cls.body:
+      v = getattr(st, 'value', None)
+      if isinstance(st, (ast.AnnAssign, ast.Assign)) and isinstance(v, ast.Call) and ast.unparse(v.func).endswith('field'):
+        for k in v.keywords:
+          if k.arg in ('compare', 'hash') and isinstance(k.value, ast.Constant) and k.value.value is False:
+            bad.append(f'{cls.name}.{ast.unparse(st.target) if isinstance(st, ast.AnnAssign) else ast.unparse(st.targets[0])}: '
+                       f'field({k.arg}=False)')
+  p.oblige('metric.static.identity', [], z3.BoolVal(not bad and n_cls >= 10), kind='frame', fn='metrics.py',
+           detail=f'all fields of the {n_cls} Metric / Stat dataclasses take part in == and hash (static-argument cache key of the '
+                  f'jitted evaluation): {bad}')
+  _, mtree = parse(MO) if 'MO' in globals() else (None, None)
+
+
 def build(p):
   D = 'native/C05.py'
   for fn in ('MeanStat', 'SumStat', 'safe_div', 'evaluate_batch', 'apply_mask', '_evaluate_model_step',
@@ -419,6 +449,7 @@ def build(p):
   v_stats(p)
   v_evaluate_batch(p)
   v_metric_zeros(p)
+  v_metric_identity(p)
   from . import C05_model
   C05_model.build(p)
   p.trust('T-JAX: vmap(f)(xs)[i] = f(xs[i]); tree_map over Stat dataclasses maps their fields; jnp.sum over the row axis '
